@@ -287,4 +287,18 @@ def run(tier):
     c14.handler_unwind(fx, ck, name="R3b.handler-scope")
     import c01b
     c01b.run(fx, ck, OP)
+    # ---- R22 nested function compilers inherit the class context
+    import nestedcomp
+    ck.rule("R22.nested-compilers-inherit-context", "every function that creates the compiler of a nested function body copies into it each Compiler field (other than the "
+            "source file, see C20 N1) that one of its siblings copies from self - the class context that makes private names accessible", floor=3)
+    union22, rows22 = nestedcomp.rule(fx)
+    ck.anchor("class_context_stack" in union22, "a creator of nested compilers copies Compiler.class_context_stack (inherited fields: %s)" % sorted(union22))
+    for f22, sp22, inh22, miss22, via22 in rows22:
+        m22 = sorted(miss22 - {"source_file"})
+        ck.instance("R22.nested-compilers-inherit-context", "%s%s" % (f22.path, " (through %s)" % via22.split("::")[-1] if via22 else ""), F.short_span(sp22), ok=not m22)
+        if m22:
+            ck.finding("R22.nested-compilers-inherit-context", "R22.nested-compilers-inherit-context/%s/%s" % (f22.path, "+".join(m22)), F.short_span(sp22),
+                       "`%s` compiles a nested function body with a fresh compiler that does not inherit %s, which its siblings copy from the enclosing compiler: "
+                       "`class A { #x = 41; m() { return (() => this.#x + 1)() } }` is refused with \"Private field '#x' must be declared in an enclosing class\""
+                       % (f22.path, ", ".join(m22)))
     return ck.finish()
